@@ -353,8 +353,8 @@ class Folder(FileSystemItemABC):
             return True
 
         if self.scan_countdown <= 0:
-            # scan one file per timestep
-            self.scan_countdown = self.scan_duration
+            # scan one file per timestep; a scan always needs a timestep to complete, or a duration of 0 never would
+            self.scan_countdown = max(self.scan_duration, 1)
             self.sys_log.info(f"Scanning folder {self.name} (id: {self.uuid})")
         else:
             # scan already in progress
@@ -451,7 +451,8 @@ class Folder(FileSystemItemABC):
             self.deleted = False
 
         if self.restore_countdown <= 0:
-            self.restore_countdown = self.restore_duration
+            # a restore always needs a timestep to complete, or a duration of 0 never would
+            self.restore_countdown = max(self.restore_duration, 1)
             self.health_status = FileSystemItemHealthStatus.RESTORING
             self.sys_log.info(f"Restoring folder: {self.name} (id: {self.uuid})")
         else:
